@@ -17,13 +17,28 @@ Theorem C19_oracle_sound : forall c,
   check_C19 c = true <-> property (c_opts c) (c_pre c) (c_blobs c) (c_final c) (c_err c) (c_other_intact c).
 Proof. exact check_C19_iff. Qed.
 
-(* F-C19b (genuine defect, confirmed on the real code by the engine): the property fails for the faithful model *)
-Theorem C19_hardlinked_reuse_refuted :
-  exists o p blobs d, restore_file o p blobs = (FReg d, false) /\ should_overwrite o p = true /\
-                      trusted o p blobs = false /\ d <> concat blobs.
-Proof. exact hardlinked_reuse_refuted. Qed.
+(* Core of the property: after a successful restore with --overwrite always / if-changed (outside the
+   documented equal-size-and-mtime shortcut) the path holds exactly the snapshot content -- for every old
+   state of the path (absent, any old bytes shorter/longer/different, unreadable, second hard link, directory
+   or symlink in the way), every blob layout, sparse on or off, root or not, every verifyFile outcome. *)
+Theorem C19_always_if_changed_exact : forall o p blobs f,
+  should_overwrite o p = true -> trusted o p blobs = false ->
+  restore_file o p blobs = (f, false) -> f = FReg (concat blobs).
+Proof. exact restore_exact. Qed.
+
+(* --overwrite if-changed with equal size and mtime leaves the file alone (documented) *)
+Theorem C19_if_changed_trust : forall o p blobs,
+  trusted o p blobs = true -> restore_file o p blobs = (state_of p, false).
+Proof. exact trusted_untouched. Qed.
+
+(* the model's outcome satisfies the whole property statement for all inputs *)
+Theorem C19_model_satisfies_property : forall o p blobs,
+  property o p blobs (fst (restore_file o p blobs)) (snd (restore_file o p blobs)) true.
+Proof. exact model_satisfies_property. Qed.
 
 Print Assumptions C19_skip_untouched.
 Print Assumptions C19_skip_exactly_when.
 Print Assumptions C19_oracle_sound.
-Print Assumptions C19_hardlinked_reuse_refuted.
+Print Assumptions C19_always_if_changed_exact.
+Print Assumptions C19_if_changed_trust.
+Print Assumptions C19_model_satisfies_property.
